@@ -79,10 +79,36 @@ def check(chk):
     g = CFG(bind)
     fl = Flow(g, 0, lambda n, c: c)
     enc = [n for n in g.stmt_nodes() if n.kind == 'stmt' and 'ce_policy.encrypt(' in src(n.ast)]
-    ok = len(enc) == 1 and all(fa.knows('value is None') is False and fa.knows('uses_ce') is True for fa, _ in fl.at(enc[0]))
+    ok = len(enc) == 1
+    order = False
+    if ok:
+        ecalls = [c for c in ast.walk(enc[0].ast) if isinstance(c, ast.Call) and src(c.func) == 'ce_policy.encrypt']
+        ok = len(ecalls) == 1
+    if ok:
+        ec = ecalls[0]
+        # the condition under which the call is evaluated: the path facts of its statement, plus the test of a conditional expression it is an arm of
+        cond_ce = None
+        pp = parent(ec)
+        while pp is not None and not isinstance(pp, ast.stmt):
+            if isinstance(pp, ast.IfExp) and src(pp.test) == 'uses_ce' and any(x is ec for x in ast.walk(pp.body)):
+                cond_ce = True
+            pp = parent(pp)
+        ok = all(fa.knows('value is None') is False and (cond_ce or fa.knows('uses_ce') is True) for fa, _ in fl.at(enc[0])) and bool(list(fl.at(enc[0])))
+        # serialize -> encrypt -> append: the plaintext handed to encrypt is the serialized value, and what is appended is its result (or the plaintext when not encrypted)
+        sers = [n for n in g.stmt_nodes() if n.kind == 'stmt' and isinstance(n.ast, ast.Assign) and src(n.ast.value) == 'col_type.serialize(value, proto_version)']
+        if len(sers) == 1 and len(ec.args) == 2 and src(ec.args[0]) == 'col_desc' and src(ec.args[1]) == src(sers[0].ast.targets[0]) and g.dominates(sers[0], enc[0]):
+            plain = src(sers[0].ast.targets[0])
+            apps_ = [n for n in g.stmt_nodes() if n.kind == 'stmt' and isinstance(n.ast, ast.Expr) and isinstance(n.ast.value, ast.Call) and src(n.ast.value.func) == 'self.values.append'
+                     and g.dominates(sers[0], n)]
+            if len(apps_) == 1:
+                arg = apps_[0].ast.value.args[0]
+                if enc[0] is apps_[0]:
+                    order = isinstance(arg, ast.IfExp) and src(arg.test) == 'uses_ce' and arg.body is ec and src(arg.orelse) == plain
+                else:
+                    order = isinstance(enc[0].ast, ast.Assign) and src(enc[0].ast.targets[0]) == plain and enc[0].ast.value is ec and src(arg) == plain and \
+                        not g.dominates(enc[0], apps_[0]) and any(apps_[0] is x or True for x in [apps_[0]])
     chk.judge(ok, 'C39.null', bind, 'bind: encrypt only non-null values of encrypted columns (None is sent as null)', 'bind encrypts under the wrong condition')
     sb = src(bind)
-    order = sb.index('col_bytes = col_type.serialize(value, proto_version)') < sb.index('col_bytes = ce_policy.encrypt(col_desc, col_bytes)') < sb.index('self.values.append(col_bytes)')
     chk.judge(order and 'col_desc = ColDesc(col_spec.keyspace_name, col_spec.table_name, col_spec.name)' in sb and 'col_type = ce_policy.column_type(col_desc) if uses_ce else col_spec.type' in sb
               and 'uses_ce = ce_policy and ce_policy.contains_column(col_desc)' in sb, 'C39.sibling', bind,
               'bind: ColDesc(keyspace, table, column); codec from column_type; serialize then encrypt then append', 'bind-side encryption steps changed')
